@@ -371,7 +371,7 @@ func c01WalkB(v reflect.Value, atIface bool, addr bool, inChain bool, f *c01Fact
 			}
 		}
 	case reflect.Struct:
-		if c15HasDepthConflict(t) {
+		if c15HasDepthConflict(t, false) {
 			f.depthConf = true
 		}
 		for i := 0; i < v.NumField(); i++ {
